@@ -314,6 +314,8 @@ def show(v, depth: int = 0) -> str:
             return show(a[0], d) + "." + a[1]
         if k == "param":
             return a[0]
+        if k == "typed":
+            return "<" + a[0] + ":" + "|".join(sorted(a[1])) + ">"
         if k == "elem":
             return show(a[0], d) + "[]"
         if k == "item":
@@ -916,6 +918,8 @@ class Evaluator:
                 return self.global_name(name, m)
         if isinstance(base, Sym) and base.kind == "super":
             return Sym("super-attr", (base, name))
+        if isinstance(base, Sym) and base.kind == "typed" and name == "value" and "Enum" in base.args[1]:
+            return Sym("typed", (base.args[0] + ".value", base.args[2], frozenset()))
         if name == "SQL_CONTEXT" and isinstance(base, Sym):
             # the context record of a query class only known symbolically: every field is re-derived from it
             rec = Sym("attr", (base, name))
@@ -1065,12 +1069,25 @@ class Evaluator:
             except TypeError:
                 pass
         # object vs None
+        if name in ("is", "is not") and isinstance(b, Const) and b.value is None and self._is_plain_value(a):
+            return Const(name == "is not")
         if name in ("is", "is not") and isinstance(b, Const) and b.value is None and isinstance(a, (Obj, Str, ListV, EnumV, ClassRef, CtxV)):
             if isinstance(a, CtxV) and a.maybe_none:
                 r = Sym("ctx-present", ())
                 return r if name == "is not" else negate(r)
             return Const(name == "is not")
         return Sym("op", (name, a, b))
+
+    @staticmethod
+    def _is_plain_value(v) -> bool:
+        """a typed symbolic Python value, or text derived from one: not None, no get_sql"""
+        if isinstance(v, Sym) and v.kind == "typed":
+            return True
+        if isinstance(v, Sym) and v.kind == "call" and v.args and v.args[0] == ".replace" and len(v.args) == 4 and not any(isinstance(a, Sym) and a.kind == "kw" for a in v.args):
+            r = v.args[1]      # str.replace(old, new) on a str-kinded value or on text derived from one
+            return (isinstance(r, Sym) and r.kind == "typed" and "str" in r.args[1]) or (isinstance(r, Sym) and r.kind == "call" and Evaluator._is_plain_value(r))
+        return isinstance(v, Sym) and v.kind == "call" and bool(v.args) and v.args[0] in (".isoformat", "str", ".dumps", ".lower", ".upper") and len(v.args) > 1 \
+            and (Evaluator._is_plain_value(v.args[1]) or (isinstance(v.args[1], Sym) and v.args[1].kind == "extern" and len(v.args) > 2 and Evaluator._is_plain_value(v.args[2])))
 
     def concrete(self, v):
         if isinstance(v, Const):
@@ -1276,6 +1293,8 @@ class Evaluator:
         if name == "isinstance" and len(args) == 2:
             return self.isinstance(a0, args[1])
         if name == "hasattr" and len(args) == 2 and isinstance(args[1], Const):
+            if (self._is_plain_value(a0) or isinstance(a0, (Str, Const))) and args[1].value in ("get_sql", "nodes_", "replace_table"):
+                return Const(False)
             if isinstance(a0, Obj):
                 nm = args[1].value
                 if nm in getattr(a0, "absent", ()):
@@ -1347,7 +1366,45 @@ class Evaluator:
                             return True
         return False
 
+    @staticmethod
+    def typed(name: str, tags, member_tags=("str",)):
+        """a symbolic value of known Python kind(s): isinstance() folds on it (used for exhaustive value-kind tables)"""
+        return Sym("typed", (name, frozenset(tags), frozenset(member_tags)))
+
+    def _spec_names(self, spec):
+        """type names denoted by the second argument of isinstance(), or None when not all are known"""
+        items = [i.value for i in spec.items if isinstance(i, One)] if isinstance(spec, ListV) else [spec]
+        if isinstance(spec, ListV) and len(items) != len(spec.items):
+            return None
+        out = set()
+        for it in items:
+            if isinstance(it, ClassRef):
+                out.add(it.cls.name)
+            elif isinstance(it, Builtin):
+                out.add(it.name)
+            elif isinstance(it, Sym) and it.kind == "extern":
+                out.add(str(it.args[0]).rsplit(".", 1)[-1])
+            elif isinstance(it, Sym) and it.kind == "attr" and isinstance(it.args[0], Sym) and it.args[0].kind in ("extern", "module"):
+                out.add(str(it.args[1]))
+            else:
+                return None
+        return out
+
     def isinstance(self, v, spec):
+        if isinstance(v, Sym) and v.kind == "typed":
+            names = self._spec_names(spec)
+            if names is not None:
+                return Const(bool(names & v.args[1]))
+        if isinstance(v, (Str, Const)):
+            names = self._spec_names(spec)
+            if names is not None:
+                if isinstance(v, Str):
+                    return Const("str" in names)
+                return Const(bool({k.__name__ for k in type(v.value).__mro__} & names))
+        if self._is_plain_value(v) or (isinstance(v, Sym) and v.kind == "call" and v.args and v.args[0] == ".replace" and len(v.args) > 1 and self._is_plain_value(v.args[1])):
+            names = self._spec_names(spec)      # text derived from a typed value is an exact str
+            if names is not None and not (isinstance(v, Sym) and v.kind == "typed"):
+                return Const("str" in names)
         classes = []
         if isinstance(spec, ClassRef):
             classes = [spec.cls]
@@ -1477,6 +1534,9 @@ class Evaluator:
             return Sym("call", (f"{base.cls.qualname}.{m}",) + tuple(args))
         if isinstance(base, FuncRef):
             pass
+        # ---- date/time.replace(**fields) on a typed value keeps its kind
+        if isinstance(base, Sym) and base.kind == "typed" and m == "replace" and base.args[1] & {"time", "date", "datetime"} and e.keywords and not e.args:
+            return base
         # ---- unknown receiver
         args, kwargs = self.eval_args(e, fr)
         if isinstance(base, Phi):
